@@ -48,6 +48,65 @@ fn last_chunk_files() -> Vec<(String, File)> {
     out
 }
 
+
+/// files whose last chunk is large (>= 4 KiB, and one > 64 KiB) while an earlier frame holds a
+/// chunk of the same kind, size and (where legal) content: what a buffer carried over from an
+/// earlier frame would still contain
+fn large_last_files() -> Vec<(String, File)> {
+    let fmt = Fmt::Rgba;
+    let mut out = Vec::new();
+    let (w, h) = (40u16, 40u16);
+    let px = noise(w as usize * h as usize * 4, 7);
+    let ids: Vec<u32> = noise(2000, 9).iter().map(|b| (*b % 2) as u32).collect();
+    let text = "x".repeat(5000);
+    let kinds: Vec<(&str, Box<dyn Fn(u32) -> Body>)> = vec![
+        ("raw-cel", Box::new({ let px = px.clone(); move |_| raw_cel(0, 0, 0, 255, w, h, px.clone()) })),
+        ("zlib-cel", Box::new({ let px = px.clone(); move |_| zcel(0, 0, 0, 255, w, h, px.clone(), 6) })),
+        ("zlib0-cel", Box::new({ let px = px.clone(); move |_| zcel(0, 0, 0, 255, w, h, px.clone(), 0) })),
+        ("tilemap-cel", Box::new({ let ids = ids.clone(); move |_| {
+            let mut c = tm_cel(1, 0, 0, 255, 50, 40, ids.clone());
+            if let Body::Cel(cc) = &mut c { if let CelBody::Tilemap { z, .. } = &mut cc.body { *z = Zlib::Level(0); } }
+            c
+        } })),
+        ("userdata", Box::new({ let t = text.clone(); move |_| Body::UserData(UserData::text(&t)) })),
+        ("palette", Box::new(|_| new_palette(0, pal_entries(1200, 3)))),
+        ("tileset", Box::new(|k| Body::Tileset({ let mut t = tileset(10 + k, 20, 8, 8, noise(20 * 64 * 4, 11), "ts"); t.z = Zlib::Level(0); t }))),
+        ("slice", Box::new(|k| slice(&format!("s{}", k), 0, (0..300).map(|i| key(i, 1, 2, 3, 4)).collect()))),
+        ("tags", Box::new(|_| tags((0..250).map(|i| Tag::new("tag-name", i, i, 0)).collect()))),
+        ("big-raw-cel", Box::new(|_| raw_cel(0, 0, 0, 255, 160, 128, noise(160 * 128 * 4, 13)))),
+    ];
+    for (name, mk) in kinds {
+        for nframes in [2usize, 3] {
+            let d: Vec<u16> = (0..nframes).map(|i| 10 + i as u16).collect();
+            let mut f = gen::file(4, 4, &fmt, &d);
+            f.frames[0].push(Body::Tileset(tileset(0, 2, 1, 1, tile_pixels(&fmt, 2, 1, 1, 1, (0, 0)), "t0")));
+            f.frames[0].push(Body::Layer(Layer::image("l0")));
+            f.frames[0].push(Body::Layer(Layer::tilemap("l1", 0)));
+            if name == "tags" {
+                // tags refer to frames: one tags chunk only, preceded by a large user-data text in frame 0
+                f.frames[0].push(Body::UserData(UserData::text(&"y".repeat(12000))));
+                f.header.frames = None;
+                for _ in 0..250 {
+                    f.frames.push(Frame::new(1));
+                }
+                let last = f.frames.len() - 1;
+                f.frames.swap(nframes - 1, last);
+                f.frames[last].push(mk(0));
+                out.push((format!("large-last-{}-{}f", name, nframes), f));
+                continue;
+            }
+            for k in 0..nframes {
+                if name == "userdata" {
+                    f.frames[k].push(raw_cel(0, 0, 0, 255, 1, 1, vec![1, 2, 3, 4]));
+                }
+                f.frames[k].push(mk(k as u32));
+            }
+            out.push((format!("large-last-{}-{}f", name, nframes), f));
+        }
+    }
+    out
+}
+
 pub fn run(ctx: &Ctx) -> i32 {
     let thorough = ctx.tier == Tier::Thorough;
     // (name, bytes, end of last frame, chunk spans (start,end))
@@ -64,6 +123,9 @@ pub fn run(ctx: &Ctx) -> i32 {
     add("d1-gray".into(), &gen::d1(&Fmt::Gray));
     add("d1-indexed".into(), &gen::d1(&Fmt::Indexed(4)));
     for (n, f) in last_chunk_files() {
+        add(n, &f);
+    }
+    for (n, f) in large_last_files() {
         add(n, &f);
     }
     // a file whose chunks carry trailing bytes and whose frames use each count style
@@ -135,7 +197,7 @@ pub fn run(ctx: &Ctx) -> i32 {
         }
     }
     let total: usize = files.iter().map(|(n, _, e, sp)| if n == "big" && !thorough { (0..*e).filter(|k| k % 257 == 0 || k % 4096 < 24 || k % 4096 >= 4072 || sp.iter().any(|(a, b)| k.abs_diff(*a) < 24 || k.abs_diff(*b) < 24)).count() } else { *e }).sum();
-    ctx.family("prefixes", total as u64, &format!("every strict prefix bytes[..k], 0 <= k < end of last frame, of {} files: b1..b4, D1 in three formats, one file per chunk kind with that chunk last, b1 with trailing bytes / both count styles / a tail, and the corpus files up to 8 KB, plus `big` (every chunk > 64 KiB; quick: cuts near chunk / 4 KiB boundaries and every 257th offset, thorough: every offset){}", files.len(), if thorough { " plus one 525 KB corpus file at every offset" } else { "" }), true);
+    ctx.family("prefixes", total as u64, &format!("every strict prefix bytes[..k], 0 <= k < end of last frame, of {} files: b1..b4, D1 in three formats, one file per chunk kind with that chunk last, 2- and 3-frame files whose last chunk is a 5..80 KB raw / zlib / stored-zlib / tilemap cel, user-data text, palette, tileset, slice or tags chunk that an earlier frame holds too, b1 with trailing bytes / both count styles / a tail, and the corpus files up to 8 KB, plus `big` (every chunk > 64 KiB; quick: cuts near chunk / 4 KiB boundaries and every 257th offset, thorough: every offset){}", files.len(), if thorough { " plus one 525 KB corpus file at every offset" } else { "" }), true);
     for (name, bytes, end, spans) in &files {
         // `big` (400 KB) in the quick tier: every cut within 24 bytes of a chunk boundary, of a
         // 4 KiB / 64 KiB multiple, and every 257th offset; all offsets in the thorough tier
